@@ -284,11 +284,53 @@ def family_c09(tier, seed):
     return out
 
 
+def probeify(n, table):
+    """replace every {{{ ... }}} command by a probe command (fixed output), consistently per command text"""
+    k = n[0]
+    if k == 'cmd':
+        ids = ['c1', 'c2', 'c3', 'c4']
+        pid = table.setdefault(n[1], ids[len(table) % 4])
+        return gram.Cmd(probe(pid))
+    if k in ('seq', 'alt', 'fb', 'sub'):
+        return (k, tuple(probeify(c, table) for c in n[1]))
+    if k in ('opt', 'many'):
+        return (k, probeify(n[1], table))
+    if k == 'descr':
+        return (k, probeify(n[1], table), n[2])
+    return n
+
+
+def run_c09_bash_part(tier, seed, rep):
+    """part (iii): the emitted bash script on the C09 shapes: matching and candidates equal the union
+    reading of the grammar (which is the reading of G[||:=|] for matching), all words symbolic."""
+    from . import e2
+    fam = []
+    for g in family_c09(tier, seed)[:170 if tier == 'quick' else 400]:
+        table = {}
+        g2 = {'command': g['command'], 'variants': [probeify(v, table) for v in g['variants']],
+              'defs': [(n, sh, probeify(e, table)) for (n, sh, e) in g['defs']]}
+        fam.append(g2)
+    sub = run_e2('C09', tier, seed, [('c09 shapes in bash', fam)], K=2, configs=[e2.DEFAULT_WB],
+                 allow_regions=('same-literal-two-labels',), extra={'budget_s': 60})
+    # differences explained only by the other properties' known deviations are theirs
+    other = set(e2.KNOWN_DEVS)
+    for (k, w, p) in sub.violations:
+        if set(k.split('+')) <= other:
+            continue
+        rep.violations.append(('bash:' + k, w, p))
+    rep.inconclusive += sub.inconclusive
+    rep.coverage['bash_part'] = {k: sub.coverage[k] for k in ('programs', 'paths', 'status_counts', 'solver_queries_total', 'solver_time_s',
+                                                               'counterexamples_replayed_in_real_bash', 'interpreter_runs_validated_against_real_bash',
+                                                               'excluded_by_region_query', 'bounds')}
+    rep.coverage['solver_queries_total'] = rep.coverage.get('solver_queries_total', 0) + sub.coverage['solver_queries_total']
+
+
 def check_C09(tier, seed):
     from . import e3
     fam = family_c09(tier, seed)
     rep = run_e3('C09', tier, seed, [('c09-shapes+random+exhaustive', fam)], shells=('bash', 'zsh'), analyse=e3.analyse_c09)
-    rep.coverage['parts'] = '(i) per state of every minimised automaton: same literal text / equal-language within-word items with different targets (z3 string-regex xor-emptiness, unbounded word length); (ii) level-erased bisimulation between G and G[||:=|] (automata as NFAs, determinised). Part (iii), execution in bash, is covered by the E2 checks.'
+    run_c09_bash_part(tier, seed, rep)
+    rep.coverage['parts'] = '(i) per state of every minimised automaton: same literal text / equal-language within-word items with different targets (z3 string-regex xor-emptiness, unbounded word length); (ii) level-erased bisimulation between G and G[||:=|] (automata as NFAs, determinised); (iii) E2 on the same shapes in bash (coverage.bash_part): grammars where two within-word expressions accept a common word are left to part (i).'
     return rep
 
 
@@ -459,6 +501,10 @@ def family_c01(tier, seed):
     ]
     fams.append(('shapes', shapes))
     fams.append(('random(seed=%d)' % seed, gen_e2(seed, 40 if tier == 'quick' else 400)))
+    if tier != 'quick':
+        # three complete words before the cursor on the hand-made shapes and the smallest trees
+        fams.append(('shapes, K=3', shapes, 3))
+        fams.append(('exhaustive<=3, K=3', gram.exhaustive_family(3), 3))
     return fams
 
 
@@ -479,6 +525,7 @@ def family_c12(tier, seed):
 
 
 E2_REQUIRED_EVENTS = {
+    'C09': ('literal-step', 'fallback-level-used', 'nonempty-reply'),
     'C07': ('literal-step', 'within-word-step', 'nonempty-reply'),
     'C17': ('literal-step', 'within-word-step', 'command-step', 'fallback-level-used', 'nonempty-reply', 'unmatched'),
     'C01': ('literal-step', 'within-word-step', 'command-step', 'any-word-step', 'fallback-level-used',
@@ -493,11 +540,13 @@ def run_e2(prop, tier, seed, families, K, configs, allow_regions=(), max_paths=6
     common.ensure_built()
     jobs = []
     fam_sizes = {}
-    for name, gs in families:
+    for fam in families:
+        name, gs = fam[0], fam[1]
+        kk = fam[2] if len(fam) > 2 else K
         fam_sizes[name] = len(gs)
         for g in gs:
-            j = {'grammar': g, 'probes': PROBES, 'K': K, 'configs': configs, 'max_paths': max_paths,
-                 'allow_regions': allow_regions}
+            j = {'grammar': g, 'probes': PROBES, 'K': kk, 'configs': configs, 'max_paths': max_paths,
+                 'allow_regions': allow_regions, 'cross_every': 97 if len(jobs) % 9 == 0 else 0}
             if extra:
                 j.update(extra)
             jobs.append(j)
@@ -560,7 +609,7 @@ def run_e2(prop, tier, seed, families, K, configs, allow_regions=(), max_paths=6
         'families': fam_sizes,
         'status_counts': status,
         'excluded_by_region_query': regions,
-        'bounds': {'complete_words_K': '0..%d' % K, 'word_length_L': '<= longest vocabulary item + 1 (max seen %s)' % bounds.get('max_L'),
+        'bounds': {'complete_words_K': '0..%d (families tagged K=3: 0..3)' % K, 'word_length_L': '<= longest vocabulary item + 1 (max seen %s)' % bounds.get('max_L'),
                    'alphabet': 'characters of the vocabulary and command outputs plus z = : (no glob metacharacters)',
                    'COMP_WORDBREAKS': configs},
         'paths': paths,
@@ -570,6 +619,8 @@ def run_e2(prop, tier, seed, families, K, configs, allow_regions=(), max_paths=6
         'counterexamples_replayed_in_real_bash': cexs,
         'interpreter_runs_validated_against_real_bash': validated,
         'vacuity_events_seen': sorted(events),
+        'second_solver': {'queries_rechecked_on_cvc5_and_z3_4_8_12': queries.get('cross-cvc5:sat', 0) + queries.get('cross-cvc5:unsat', 0),
+                          'note': 'a sample of the per-path result queries is exported as SMT-LIB2 and must get the same verdict'},
         'symbolic_pattern_sites_assumed_glob_free': sorted(sites),
         'functions_encoded': ['emitted _<cmd>', '_<cmd>_subword', '_<cmd>_subword_N', '_<cmd>_subword_shape_N',
                               '_<cmd>_cmd_N', '__complgen_match'],
@@ -588,8 +639,8 @@ def run_e2(prop, tier, seed, families, K, configs, allow_regions=(), max_paths=6
 
 def check_C01(tier, seed):
     from . import e2
-    return run_e2('C01', tier, seed, family_c01(tier, seed), K=2 if tier == 'quick' else 2,
-                  configs=[e2.DEFAULT_WB, ''])
+    return run_e2('C01', tier, seed, family_c01(tier, seed), K=2, configs=[e2.DEFAULT_WB, ''],
+                  extra={} if tier == 'quick' else {'budget_s': 300}, max_paths=6000 if tier == 'quick' else 40000)
 
 
 def check_C12(tier, seed):
